@@ -7,6 +7,7 @@ mod dialect;
 mod indep;
 mod parseprops;
 mod roundtrip;
+mod serdeprops;
 mod enc;
 mod gentext;
 mod genval;
@@ -47,6 +48,7 @@ fn main() {
         "C11" => parseprops::run_c11(tier, seed, &mut out),
         "C17" => parseprops::run_c17(tier, seed, &mut out),
         "C19" => parseprops::run_c19(tier, seed, &mut out),
+        "C04" | "C14" | "C18" => serdeprops::run(id, tier, seed, &mut out),
         "C03" => c03::run(tier, seed, &mut out),
         "C07" => c07::run(tier, seed, &mut out),
         "C20" => c20::run(tier, seed, &mut out),
